@@ -22,7 +22,7 @@ def _alarm(signum, frame):
 
 
 def _write_replay(prop: str, name: str, doc: dict) -> str:
-    d = os.path.join(ROOT, "replays", prop)
+    d = os.path.join(os.environ.get("VERIF_OUT") or ROOT, "replays", prop)
     os.makedirs(d, exist_ok=True)
     path = os.path.join(d, "standin_%s.json" % name)
     with open(path, "w") as f:
